@@ -29,7 +29,9 @@ checks = {}
 sh("git checkout -q -- . && git clean -fdq", wt)
 rc, o = sh("git apply %s" % os.path.join(mut, "patch.diff"), wt)
 assert rc == 0, o
-env2 = dict(env, VERIF_REPO=wt, VERIF_OUT="/tmp/vout_" + name, VERIF_EVIDENCE_DIR="/tmp/vout_" + name + "/evidence")
+frozen = "/tmp/gosym_frozen_%d" % os.getpid()
+shutil.copy("/verif/bin/gosym", frozen)  # later engine rebuilds must not change the binary under a running experiment
+env2 = dict(env, GOSYM_BIN=frozen, VERIF_REPO=wt, VERIF_OUT="/tmp/vout_" + name, VERIF_EVIDENCE_DIR="/tmp/vout_" + name + "/evidence")
 for p in props:
     r = subprocess.run("./check %s" % p, shell=True, cwd="/verif", env=env2, capture_output=True, text=True, timeout=3600)
     o = r.stdout + r.stderr
@@ -37,6 +39,7 @@ for p in props:
     checks[p] = dict(exit=r.returncode, lines=lines[:12])
     print(p, "exit", r.returncode, lines[:4])
 shutil.rmtree("/tmp/vout_" + name, ignore_errors=True)
+os.remove(frozen)
 dst = os.path.join("/verif/seeded", name)
 os.makedirs(dst, exist_ok=True)
 shutil.copy(os.path.join(mut, "patch.diff"), dst)
